@@ -26,6 +26,13 @@ package noise
 // is unchanged (a zero-length Read returns 0 bytes; what the later Reads return must still be the prefix);
 // the path automaton has the three paths and their pairs added. Zero-length writes are part of the write
 // splits (at the start, at the end, between two non-empty writes; they produce no frame).
+//
+// End of the stream / errors of the connection underneath ("any underlying connection": an io.Reader may return
+// n > 0 TOGETHER WITH err != nil): the last transfer of every session ends with the writer closing BEFORE the
+// reader has read what the last write sent; the connection underneath hands the reader its last segment in the
+// same Read call as io.EOF (initiator->responder sessions) or before it (responder->initiator sessions). All
+// bytes must have arrived when the reader sees the end. TestVerifC02NoiseReadFaults (below) breaks the
+// connection at enumerated wire positions with the error arriving together with the segment that ends there.
 
 import (
 	"context"
@@ -99,10 +106,12 @@ type c02Pair struct {
 	ca, cb   *memconn.Conn  // raw ends underneath (ca: initiator side)
 }
 
-func c02Handshake(ti, tr *Transport, short []int, psk bool) (*c02Pair, error) {
+func c02Handshake(ti, tr *Transport, short []int, psk, eofWithData bool) (*c02Pair, error) {
 	ca, cb := memconn.Pair()
 	ca.SetReadChunks(short...)
 	cb.SetReadChunks(short...)
+	ca.SetEOFWithData(eofWithData)
+	cb.SetEOFWithData(eofWithData)
 	var na, nb net.Conn = ca, cb
 	if psk {
 		var err error
@@ -351,9 +360,9 @@ func (k *c02Tracker) trace() string {
 // c02Setup returns the setup function of one direction of a fresh, handshaken session (optionally over the
 // PSK layer) with the white-box tracker wired to the reader; frames = plaintext sizes of all frames the
 // writer is going to send during the session.
-func c02Setup(ti, tr *Transport, stack, dir string, short, frames []int, chatter bool) func() (*memconn.Link, error) {
+func c02Setup(ti, tr *Transport, stack, dir string, short, frames []int, chatter, eofWithData bool) func() (*memconn.Link, error) {
 	return func() (*memconn.Link, error) {
-		p, err := c02Handshake(ti, tr, short, stack == "psk>noise")
+		p, err := c02Handshake(ti, tr, short, stack == "psk>noise", eofWithData)
 		if err != nil {
 			return nil, err
 		}
@@ -381,6 +390,11 @@ type c02Case struct {
 	Duplex bool   `json:"reader_writes_back_while_a_remainder_is_queued,omitempty"`
 	Nth    int    `json:"nth_transfer_of_session"`
 	Trace  string `json:"reader_paths,omitempty"`
+	// last transfer of a session: the writer closes before the reader reads what the last write sent
+	CloseEarly  bool               `json:"writer_closes_before_the_last_read,omitempty"`
+	EOFWithData bool               `json:"last_segment_arrives_together_with_eof"`
+	Scenario    string             `json:"scenario,omitempty"`
+	Fault       *memconn.ReadFault `json:"read_fault,omitempty"`
 }
 
 func c02ShortWrites(w []int) []int {
@@ -481,6 +495,7 @@ func TestVerifC02Noise(t *testing.T) {
 	r.Bounds["short_read_patterns(cyclic, 0=unlimited)"] = shorts
 	r.Bounds["directions"] = "initiator->responder, responder->initiator"
 	r.Bounds["read_after"] = "each write | last write"
+	r.Bounds["end_of_stream"] = "the last transfer of every session: the writer closes before the reader reads what the last write sent; the connection underneath delivers its last segment together with io.EOF (initiator->responder) | before io.EOF (responder->initiator)"
 	r.Bounds["duplex"] = "additionally (noise, unlimited reads, read after last write): the reading session writes a same-size frame back whenever a remainder has just been queued"
 	r.Bounds["stacks"] = "noise: full grid; psk>noise: L in {0,17,65520,131039}, short reads {unlimited,1,7}"
 	if !thorough {
@@ -537,12 +552,14 @@ func TestVerifC02Noise(t *testing.T) {
 								items := make([]memconn.Item, len(pols))
 								cases := make([]c02Case, len(pols))
 								var all []int
+								join := dir == "i2r"
 								for i, pol := range pols {
-									items[i] = memconn.Item{Payload: c02Payload(payloads, L, dir, i), Writes: sp.Sizes, Each: each, Pol: pol}
-									cases[i] = c02Case{Stack: stack, Dir: dir, L: L, Split: sp.Name, Writes: c02ShortWrites(sp.Sizes), Policy: pol.Name, Short: short, Each: each, Duplex: chatter, Nth: i}
+									last := i == len(pols)-1
+									items[i] = memconn.Item{Payload: c02Payload(payloads, L, dir, i), Writes: sp.Sizes, Each: each, Pol: pol, CloseEarly: last}
+									cases[i] = c02Case{Stack: stack, Dir: dir, L: L, Split: sp.Name, Writes: c02ShortWrites(sp.Sizes), Policy: pol.Name, Short: short, Each: each, Duplex: chatter, Nth: i, CloseEarly: last, EOFWithData: join}
 									all = append(all, frames...)
 								}
-								res := memconn.RunFidelity(t, c02Setup(ti, tr, stack, dir, short, all, chatter), items, &b.Buf, func(i int, _ *memconn.Transfer, l *memconn.Link) {
+								res := memconn.RunFidelity(t, c02Setup(ti, tr, stack, dir, short, all, chatter, join), items, &b.Buf, func(i int, _ *memconn.Transfer, l *memconn.Link) {
 									cases[i].Trace = l.Extra.(*c02Tracker).trace()
 								})
 								if res.Link != nil && res.Done < len(cases) {
